@@ -12,7 +12,7 @@ TRUSTED = [
 ]
 ASSUMPTIONS = ["tag names are clean (no blank, comma, colon, parenthesis, wildcard or leading -/~ inside a name)"]
 RULE = ("all CNF formulas with 1-2 argument groups x 1-2 alternatives over 4 tags with every negation/@ decoration (exhaustive), "
-        "seeded random ones up to 3x3 with ':limit' suffixes, given as argument list or one blank-separated string, under protocols "
+        "seeded random ones up to 3x3 with ':limit' suffixes, given as argument list or one blank-separated string (also with leading, trailing and repeated blanks), under protocols "
         "v1 and auto_detect; all v2 renderings of C07 under auto_detect; mixed texts (old negation prefix next to new-style operators, "
         "incl. directly behind a parenthesis); complete truth tables over 64 tag subsets")
 LEVEL_TEXT = ("Theorems over TagExpr.v: the v1 check is the conjunction of the disjunctions it was built from; every decorated spelling of a tag "
@@ -187,6 +187,15 @@ def suites(tier, seed):
         for proto in ("v1", "auto"):
             cases.append({"kind": "cnf", "cnf": cnf, "text": parts, "protocol": proto})
             cases.append({"kind": "cnf", "cnf": cnf, "text": " ".join(parts), "protocol": proto})
+        if len(cases) % 5 < 2:
+            # the one-string form laid out differently: leading / trailing / repeated blanks
+            k = len(cases) // 5
+            # (blanks only: the property speaks of one space-separated string; tabs reach the third-party v2 tokenizer, which
+            #  turns every white-space character other than a blank into a token of its own)
+            lay = [lambda ps: " " + " ".join(ps), lambda ps: " ".join(ps) + " ", lambda ps: "  ".join(ps) + ("" if len(ps) > 1 else "  "),
+                   lambda ps: "  " + "   ".join(ps), lambda ps: " " + "  ".join(ps) + " "][k % 5]
+            for proto in ("v1", "auto"):
+                cases.append({"kind": "cnf", "cnf": cnf, "text": lay(parts), "protocol": proto})
         if any(len(g) > 1 for g in cnf) and len(cases) % 3 == 0:
             # blanks around the commas of an argument (only possible in the argument-list form) do not change its meaning
             seps = [",", ", ", " ,", " , ", ",  "]
